@@ -134,7 +134,7 @@ func (v *verif) rangeOf(e ast.Expr) (rng, bool) {
 }
 
 func (v *verif) rangeOfN(e ast.Expr, depth int) (rng, bool) {
-	if depth > 6 || e == nil {
+	if depth > 14 || e == nil {
 		return rng{}, false
 	}
 	switch x := ast.Unparen(e).(type) {
@@ -190,7 +190,7 @@ func (v *verif) origin(e ast.Expr) ast.Expr    { return v.ds().origin(e) }
 
 // lin evaluates e as a*len(d) + b.
 func (v *verif) lin(e ast.Expr, depth int) (a, b int64, ok bool) {
-	if depth > 8 {
+	if depth > 18 {
 		return 0, 0, false
 	}
 	e = strip(v.info, e)
@@ -566,7 +566,7 @@ func verifier(e *env, fn *core.Fn) {
 			digCall = sc
 		}
 		c.Okf("R3.verify", key("digest-covers"), digCall.Pos(), "the digest is %s over d[:len-8], a one-shot function checked under R2", core.FuncName(core.CalleeFunc(info, digCall)))
-	case len(anyDigest) == 0:
+	case len(anyDigest) == 0 && e.digestFree(fn, 0, map[*types.Func]bool{}):
 		c.Failf("R3.verify", key("digest-covers"), fn.Decl.Pos(), "%s never recomputes the CRC-64 of the payload: a payload altered in any byte is accepted", name)
 	default:
 		c.Undecidedf("R3.verify", key("digest-covers"), fn.Decl.Pos(), "cannot see a checked CRC-64 function applied to d[:len-8]")
@@ -698,4 +698,60 @@ func verifier(e *env, fn *core.Fn) {
 		}
 	}
 	e.bounds = append(e.bounds, b)
+}
+
+// digestFree: neither fn nor anything it can call computes a checksum: every
+// call in its body goes to a builtin, a conversion, a library function that has
+// nothing to do with hashing, or a function of the program that is digest-free
+// itself. A call through a function value, an interface method or a helper that
+// cannot be followed may compute the CRC where this rule does not look, so
+// "never recomputed" cannot be concluded then.
+func (e *env) digestFree(fn *core.Fn, depth int, seen map[*types.Func]bool) bool {
+	if fn == nil || fn.Decl.Body == nil || depth > 4 {
+		return false
+	}
+	if seen[fn.Obj] {
+		return true
+	}
+	seen[fn.Obj] = true
+	info := fn.Pkg.TypesInfo
+	free := true
+	ast.Inspect(fn.Decl.Body, func(n ast.Node) bool {
+		call, ok := n.(*ast.CallExpr)
+		if !ok || !free {
+			return free
+		}
+		if tv, isT := info.Types[call.Fun]; isT && tv.IsType() {
+			return true
+		}
+		switch o := core.Callee(info, call).(type) {
+		case *types.Builtin:
+		case *types.Func:
+			if e.isDigest(o) || e.isNew(o) {
+				free = false
+				break
+			}
+			std := o.Pkg() != nil && !strings.Contains(strings.SplitN(o.Pkg().Path(), "/", 2)[0], ".") // standard library: a leaf
+			if hf := e.c.FnOf(o); hf != nil && !std {
+				if !e.digestFree(hf, depth+1, seen) {
+					free = false
+				}
+				break
+			}
+			sig, _ := o.Type().(*types.Signature)
+			if sig != nil && sig.Recv() != nil {
+				if _, isIface := sig.Recv().Type().Underlying().(*types.Interface); isIface {
+					free = false // dynamic dispatch
+					break
+				}
+			}
+			if o.Pkg() == nil || strings.Contains(o.Pkg().Path(), "hash") || strings.Contains(o.Pkg().Path(), "crc") || strings.Contains(o.Pkg().Path(), "digest") {
+				free = false
+			}
+		default:
+			free = false // function value, method value, closure
+		}
+		return free
+	})
+	return free
 }
